@@ -209,6 +209,9 @@ def compute_simple_persistence(
 
     pixel_diff = pixel_array - pixel_start
 
+    # Charge released by the clipping of *all* the trap species goes back to the pixels
+    output_pixel = pixel_array.copy()
+
     for i, trapped_charge in enumerate(all_trapped_charge):
         if trap_capacities is None:
             fwc = None
@@ -218,13 +221,14 @@ def compute_simple_persistence(
         densities = trap_densities[i] * np.ones(trapped_charge.shape)
         available_traps = pixel_array * densities
 
-        trapped_charge_clipped, output_pixel = clip_trapped_charge(
+        trapped_charge_clipped, _ = clip_trapped_charge(
             trapped_charge=trapped_charge,
             pixel=pixel_array,
             available_traps=available_traps,
             pixel_diff=pixel_diff,
             trap_capacities=fwc,
         )
+        output_pixel += trapped_charge - trapped_charge_clipped
         all_trapped_charge[i] = trapped_charge_clipped
 
     return output_pixel, all_trapped_charge
@@ -407,6 +411,9 @@ def compute_persistence(
 
     pixel_diff = pixel_array - pixel_start
 
+    # Charge released by the clipping of *all* the trap species goes back to the pixels
+    output_pixel = pixel_array.copy()
+
     for i, trapped_charge in enumerate(all_trapped_charge):
         if trap_capacities_2d is None:
             fwc = None
@@ -416,13 +423,14 @@ def compute_persistence(
         densities = trap_densities_2d * trap_proportions[i]
         available_traps = pixel_array * densities
 
-        trapped_charge_clipped, output_pixel = clip_trapped_charge(
+        trapped_charge_clipped, _ = clip_trapped_charge(
             trapped_charge=trapped_charge,
             pixel=pixel_array,
             available_traps=available_traps,
             pixel_diff=pixel_diff,
             trap_capacities=fwc,
         )
+        output_pixel += trapped_charge - trapped_charge_clipped
         all_trapped_charge[i] = trapped_charge_clipped
 
     return output_pixel, all_trapped_charge
